@@ -295,6 +295,11 @@ static ares_status_t config_search(ares_sysconfig_t *sysconfig, const char *str,
   size_t        ndomains = 0;
   ares_status_t status;
 
+  /* Nothing to do for an empty value (e.g. LOCALDOMAIN set but empty) */
+  if (ares_strlen(str) == 0) {
+    return ARES_SUCCESS;
+  }
+
   buf = ares_buf_create_const((const unsigned char *)str, ares_strlen(str));
   if (buf == NULL) {
     return ARES_ENOMEM; /* LCOV_EXCL_LINE: OutOfMemory */
@@ -466,6 +471,11 @@ ares_status_t ares_sysconfig_set_options(ares_sysconfig_t *sysconfig,
   size_t        num;
   size_t        i;
   ares_status_t status;
+
+  /* Nothing to do for an empty value (e.g. RES_OPTIONS set but empty) */
+  if (ares_strlen(str) == 0) {
+    return ARES_SUCCESS;
+  }
 
   buf = ares_buf_create_const((const unsigned char *)str, ares_strlen(str));
   if (buf == NULL) {
